@@ -132,7 +132,7 @@ pub struct Ctx {
 /// measured: wall seconds of the unboosted quick tier on 16 idle cores -> multiplier
 fn quick_boost(prop: &str) -> f64 {
     match prop {
-        "C02" => 4.0,
+        "C02" => 10.0,
         "C05" => 5.0,
         "C08" => 12.0,
         "C09" => 5.0,
